@@ -111,6 +111,13 @@ def run(ctx, rep):
                                         "guarded formula; the query goes through the guarded index function", floor=2)
     T.check_Q(rq)
     escape.check_float_to_time(ctx, rq, T)
+    rw = rep.rule("R.data", "the tempo builder receives exactly the tempo data the dispatcher collected from the section's own "
+                            "lines, in file order (a sort or de-duplication before the order guard hides reordered or duplicated "
+                            "tempo lines); every kind is folded datum by datum with its predecessor", floor=4)
+    from .wiring import check_all_sections, check_from_file_wiring
+    check_all_sections(ctx, rw)
+    check_from_file_wiring(ctx, rw)
+    T.check_folds(rw)
     rr = rep.rule("R.reach", "each validator is reached from Chart.from_file on every path of its caller and its ValueError "
                              "escapes: no handler for ValueError/Exception/bare encloses any call on the chain", floor=5)
     escape.check_reach_and_escape(ctx, rr, T)
